@@ -29,7 +29,7 @@ NoDup(ps) == Cardinality(Keys(ps)) = Len(ps)
 PairMap(ps) == [a \in Keys(ps) |-> (CHOOSE j \in 1..Len(ps) : ps[j][1] = a)]
 ToMap(ps) == [a \in Keys(ps) |-> ps[PairMap(ps)[a]][2]]
 
-Frozen == UNCHANGED <<mvars, lastr, ncol, nrec, flags, curreps, hist>>
+Frozen == UNCHANGED <<mvars, lastr, ltot, ncol, nrec, flags, curreps, hist>>
 
 TInit ==
   /\ TLCSet(1, 0)
@@ -37,7 +37,7 @@ TInit ==
   /\ kinds = <<>> /\ temps = <<>> /\ cbi = <<>>
   /\ reg = {} /\ alive = {} /\ tot = <<>> /\ given = <<>> /\ gsum = <<>> /\ fresh = <<>>
   /\ cr = 0 /\ todo = {} /\ repnow = <<>>
-  /\ lastr = 0 /\ cbs = {} /\ mtodo = {} /\ cum = <<>> /\ dlt = <<>> /\ unrep = <<>> /\ lastrep = <<>>
+  /\ lastr = 0 /\ ltot = <<>> /\ cbs = {} /\ mtodo = {} /\ cum = <<>> /\ dlt = <<>> /\ unrep = <<>> /\ lastrep = <<>>
   /\ pushed = <<>> /\ clock = 0 /\ ncol = 0 /\ nrec = 0 /\ flags = {} /\ curreps = <<>> /\ hist = <<>>
 
 TCfg ==
